@@ -75,6 +75,32 @@ CHECKS = {
              "chain (single parent, no merge), messages/authors/timestamps are not modelled.",
         tech="Lean 4 invariant proofs + differential correspondence + git CLI audit",
         ref="5/C09"),
+    "C12": dict(
+        text="collation._match and the collations table are TRANSLATED from /repo's source on every run and proved equal "
+             "to the model; the model of carddav.py's filter evaluation is proved to decide an independent, "
+             "proposition-level transcription of RFC 6352 section 10.5 (filter/prop-filter test=anyof|allof, "
+             "is-not-defined, text-match x 4 match types x 3 collations x negate, param-filter) for every vCard and "
+             "filter, never to raise on supported filters (non-ASCII included), and the report to be the matching "
+             "members in order cut at nresults. Tied to /repo by an exhaustive collation grid and generated REPORTs "
+             "through both front ends; because model = RFC is proved, any differing answer is a violation.",
+        note="vCard structure (names, text values, parameters) is what vobject reports, computed by the harness; the "
+             "XML filter parsing inside apply_*_filter is tied by correspondence; only text-valued properties and "
+             "upper-case parameter names are generated; i;unicode-casemap is only required to be total and "
+             "ASCII-case-insensitive.",
+        tech="Python->Lean translation + Lean 4 proof against an RFC 6352 spec + differential correspondence",
+        ref="5/C12"),
+    "C13": dict(
+        text="XandikosBackend._map_to_file_path is TRANSLATED from /repo on every run and proved equal to the model; "
+             "for EVERY string relpath the mapped path is proved confined to the root (root or root/clean components, "
+             "no '..'), by induction over the component loop of posixpath.normpath (Lean model of normpath/split/join "
+             "validated against CPython on 1e5 adversarial paths); member files join a clean name to a confined "
+             "collection path. The whole server is audited with sys.addaudithook while adversarial targets are sent "
+             "raw to a real aiohttp server and through the WSGI callable, with decoy siblings snapshotted.",
+        note="lexical confinement only (no symlinks inside the root; kernel resolution not modelled); C-level file "
+             "access without audit events is invisible; the handlers' use of _map_to_file_path is tied by the audit, "
+             "not by proof.",
+        tech="Python->Lean translation + Lean 4 inductive proof of normpath confinement + audit-hook fault search",
+        ref="5/C13"),
     "C14": dict(
         text="Proved on the store model: an invalid body is refused with no state change at all; what is stored is the "
              "normal form; every member of every reachable state validates; re-uploading a served body is a no-op "
